@@ -375,7 +375,10 @@ where
     {
         self.filtered_indices.clear();
         *self.original_len = 0;
-        self.append_filter(values, f).map(|values| VectorDiff::Reset { values })
+        // Always emit the reset, even if none of the new values pass the
+        // filter: the previously kept items have to go away in that case, too.
+        let values = self.append_filter(values, f).unwrap_or_default();
+        Some(VectorDiff::Reset { values })
     }
 
     fn handle_reset_filter_map<U, F>(
@@ -389,7 +392,10 @@ where
     {
         self.filtered_indices.clear();
         *self.original_len = 0;
-        self.append_filter_map(values, f).map(|values| VectorDiff::Reset { values })
+        // Always emit the reset, even if none of the new values pass the
+        // filter: the previously kept items have to go away in that case, too.
+        let values = self.append_filter_map(values, f).unwrap_or_default();
+        Some(VectorDiff::Reset { values })
     }
 
     fn handle_diff_filter<F>(&mut self, f: &F, cx: &mut task::Context<'_>) -> Poll<Option<S::Item>>
